@@ -88,6 +88,8 @@ func applyFastLocks() func() {
 	oldSentRevoke := constants.SentinelRevokeTimeWindow
 	oldRewardLimit := constants.RewardTimeLimit
 	oldVoting := constants.AcceleratorProjectVotingPeriod
+	oldRewardTick := constants.RewardTickDurationInEpochs
+	constants.RewardTickDurationInEpochs = 2 // the emission schedule (11 ZNN / 8 QSR reward ticks) is crossed, its end reached, within a history
 	constants.AcceleratorProjectVotingPeriod = 2400 // projects nobody votes for are closed within a history
 	constants.StakeTimeUnitSec = 600
 	constants.StakeTimeMinSec = constants.StakeTimeUnitSec * 1
@@ -111,6 +113,7 @@ func applyFastLocks() func() {
 		constants.SentinelRevokeTimeWindow = oldSentRevoke
 		constants.RewardTimeLimit = oldRewardLimit
 		constants.AcceleratorProjectVotingPeriod = oldVoting
+		constants.RewardTickDurationInEpochs = oldRewardTick
 	}
 }
 
